@@ -16,7 +16,7 @@ import (
 
 func init() {
 	Register(&Scenario{Prop: "C14", Name: "addresses", Run: scenC14, SoftParks: true, Weight: 1,
-		Rule: "2-3 peers with distinct identities and separate block stores; 3-8 (thorough 3-16) databases whose names come from a segment grammar {ascii, unicode, space, empty, '.', '..', nested, dotted, CID-looking segments of addresses created earlier in the same run}, any registered type, explicit write lists or the creator default; for every input DetermineAddress on every peer, address.Parse(String()) round trip, pairwise distinctness of addresses of distinct inputs; Create on one peer and Open on another through the simulated exchange under delay, loss until heal, or a virtual-time timeout: Open fails or yields the creation type and write list; Create over an existing local database (also after a restart, and after an overwriting Create that failed half-way under local read errors) must be refused without Overwrite and the database must still open LocalOnly; Open(LocalOnly) of an unknown database must be refused (also when the read of the local-presence marker fails with a disk error); in half of the runs two databases with different write lists are finally opened at the same time on a fresh peer by two calls sharing one options value, each having to come back with its own type and write list; non-trivial = >=3 accepted names, >=1 remote open that succeeded and >=1 name with a special segment"})
+		Rule: "2-3 peers with distinct identities and separate block stores; 3-8 (thorough 3-16) databases whose names come from a segment grammar {ascii, unicode, space, empty, '.', '..', nested, dotted, CID-looking segments of addresses created earlier in the same run}, any registered type, explicit write lists or the creator default; for every input DetermineAddress on every peer, address.Parse(String()) round trip, pairwise distinctness of addresses of distinct inputs; Create on one peer and Open on another through the simulated exchange under delay, loss until heal, or a virtual-time timeout: Open fails or yields the creation type and write list; Create over an existing local database (also after a restart, and after an overwriting Create that failed half-way under local read errors) must be refused without Overwrite and the database must still open LocalOnly; Open(LocalOnly) of an unknown database must be refused (also when the read of the local-presence marker fails with a disk error); in half of the runs two databases with different write lists are finally opened at the same time on a fresh peer by two calls sharing one options value, each having to come back with its own type and write list; non-trivial = >=3 accepted names, >=1 remote open that succeeded and >=1 name with a special segment; a remote open may also meet failing block fetches (any of the blocks an Open reads), and an open that failed is repeated on a healthy network: the store it then gets is the database as created (type, write list)"})
 }
 
 type c14input struct {
@@ -308,7 +308,7 @@ func scenC14(k *K) {
 		}
 		// 4. open on another peer under faults
 		other := (by + 1 + k.C.Intn(np-1)) % np
-		mode := k.C.Intn(3) // 0 plain, 1 cut until heal, 2 timeout
+		mode := k.C.Intn(4) // 0 plain, 1 cut until heal, 2 timeout, 3 block fetches that fail (any of the three blocks an Open reads)
 		timeout := time.Duration(0)
 		if mode == 1 {
 			k.Cut(by, other)
@@ -360,6 +360,10 @@ func scenC14(k *K) {
 			defer cancel()
 			return peers[other].DB.Open(ctx, in.addr, &orbitdb.CreateDBOptions{Timeout: timeout})
 		})
+		savedF := k.F
+		if mode == 3 {
+			k.F.FailFetch = k.C.Range(1, 3)
+		}
 		k.Steps(k.C.Range(2, 12))
 		if mode == 1 {
 			k.Tick(time.Duration(k.C.Range(1, 20)) * time.Second)
@@ -375,6 +379,7 @@ func scenC14(k *K) {
 				k.Tick(5 * time.Second)
 			}
 		}
+		k.F = savedF
 		if mode == 2 {
 			for x := 0; x < np; x++ {
 				if x != other {
@@ -390,6 +395,26 @@ func scenC14(k *K) {
 			if mode == 0 {
 				k.Failf("C14/open-failed", "Open(%s) on n%d failed on a healthy network: %v", in.addr, other, op.Err)
 			}
+			// the application tries again once the network is healthy: whatever part of the
+			// first attempt had got through (manifest, access-controller manifest, write list),
+			// the store it gets now is the database as it was created
+			for x := 0; x < np; x++ {
+				if x != other {
+					k.Heal(x, other)
+				}
+			}
+			rop := k.Do(other, fmt.Sprintf("open %s again", short(in.addr)), 600, func() (interface{}, error) {
+				ctx, cancel := OpCtx(10 * time.Minute)
+				defer cancel()
+				return peers[other].DB.Open(ctx, in.addr, &orbitdb.CreateDBOptions{})
+			})
+			if !rop.Done || rop.Err != nil {
+				k.Failf("C14/open-failed", "Open(%s) on n%d, repeated on a healthy network after a failed attempt (%v), says: done=%v err=%v", in.addr, other, op.Err, rop.Done, rop.Err)
+			}
+			k.W.Stat("remote-open-repeated-after-failure")
+			rst := rop.Val.(iface.Store)
+			c14CheckStore(k, fmt.Sprintf("n%d after a remote open repeated after a failed one", other), rst, in)
+			k.Do(other, "close-store", 50, func() (interface{}, error) { return nil, rst.Close() })
 		} else {
 			remoteOK++
 			rst := op.Val.(iface.Store)
